@@ -73,7 +73,7 @@ def cases(ctx):
            rng.choice(["none", "none", "list"]))
   for _ in ctx.loop(9000, 300000):
     op = rng.choice(["add", "sub", "mul", "scal", "rscal", "neg", "distrib",
-                     "square", "addself"])
+                     "square", "addself", "sadd", "ssub", "rsadd", "rssub"])
     f_den = riir_den(rng, 2) if rng.random() < 0.4 else {0: 1}
     yield ("tvalg", op, (rfir(rng, 2), f_den), rfir(rng, 2), rfir(rng, 2),
            rng.choice([2, -3, 4, -1, 0.5]), rng.choice([1, 3, 6, 9, 13]))
@@ -208,7 +208,8 @@ def run_case(ctx, case):
   one = {0: 1}
   x = syms("x", xlen)
   # per-sample model
-  if op in ("scal", "rscal", "neg"):
+  SCALAR_OPS = ("scal", "rscal", "neg", "sadd", "ssub", "rsadd", "rssub")
+  if op in SCALAR_OPS:
     specs = [fnum, fden]
   elif op in ("square", "addself"):
     specs = [gnum]
@@ -231,6 +232,12 @@ def run_case(ctx, case):
       nn, dd = pscale(fn, frac(c)), fd
     elif op == "neg":
       nn, dd = pneg(fn), fd
+    elif op in ("sadd", "rsadd"):       # f + c, c + f
+      nn, dd = padd(fn, pscale(fd, frac(c))), fd
+    elif op == "ssub":                  # f - c
+      nn, dd = padd(fn, pneg(pscale(fd, frac(c)))), fd
+    elif op == "rssub":                 # c - f
+      nn, dd = padd(pscale(fd, frac(c)), pneg(fn)), fd
     elif op == "distrib":     # f * (g + h)
       nn, dd = pmul(fn, padd(gn, hn)), fd
     elif op == "square":      # g * g (the same streams used twice)
@@ -270,10 +277,18 @@ def run_case(ctx, case):
       res_f = f * c
     elif op == "neg":
       res_f = -f
+    elif op == "sadd":
+      res_f = f + c
+    elif op == "ssub":
+      res_f = f - c
+    elif op == "rsadd":
+      res_f = c + f
+    elif op == "rssub":
+      res_f = c - f
     else:
       h = build(src, hnum, one, "dict")
       res_f = f * (g + h)
-  if op in ("scal", "rscal", "neg"):
+  if op in SCALAR_OPS:
     # g's sources are not part of the result
     src.probes = [p for p in src.probes[:len([v for v in list(fnum.values()) +
                   list(fden.values()) if isinstance(v, tuple) and
@@ -295,5 +310,5 @@ def finish(ctx):
             "streams-per-filter:2", "streams-per-filter:4"]:
     ctx.need(k, 30)
   for op in ["add", "sub", "mul", "scal", "rscal", "neg", "distrib", "square",
-             "addself"]:
+             "addself", "sadd", "ssub", "rsadd", "rssub"]:
     ctx.need("algebra:" + op, 30)
